@@ -63,10 +63,10 @@ func (s *svcTS) AgentAdd(a *agent.Agent) []*agent.Agent { return nil }
 func (s *svcTS) ListenerServiceExc2Add(Name, ExEndpoint string, client *service.ClientService) error {
 	return nil
 }
-func (s *svcTS) ListenerStartNotify(Listener map[string]any)                 {}
-func (s *svcTS) EventAppend(pk packager.Package) []packager.Package          { return nil }
-func (s *svcTS) EventBroadcast(FromUser string, pk packager.Package)         { s.ack <- struct{}{} }
-func (s *svcTS) SendEvent(id string, pk packager.Package) error              { return nil }
+func (s *svcTS) ListenerStartNotify(Listener map[string]any)         {}
+func (s *svcTS) EventAppend(pk packager.Package) []packager.Package  { return nil }
+func (s *svcTS) EventBroadcast(FromUser string, pk packager.Package) { s.ack <- struct{}{} }
+func (s *svcTS) SendEvent(id string, pk packager.Package) error      { return nil }
 
 var (
 	svcOnce sync.Once
@@ -205,10 +205,9 @@ func idClass(id string, reals []string) string {
 			return "abs"
 		case isReal(c):
 			return "alias-of-real"
-		case isReal(first):
-			return "nested-in-real"
 		}
-		return "nested-other"
+		_ = first
+		return "nested"
 	}
 	return "fresh"
 }
@@ -329,6 +328,10 @@ func checkB(c CaseB) *core.Violation {
 				}
 			} else {
 				p.craftedID = cls
+				if mode == "ws" {
+					// one message, two writers (DemonAddDownloadedFile, then DemonAddOutput)
+					p.writer = "service.AgentOutput(download)"
+				}
 			}
 			if mode == "ws" {
 				svcSend(id, map[string]any{"MiscType": "download", "FileName": op.Name, "Content": base64.StdEncoding.EncodeToString(op.Data)})
@@ -420,7 +423,7 @@ func TestC07b(t *testing.T) {
 	core.Run(t, core.Spec[CaseB]{
 		Property: "C07", Sub: "b",
 		Rule: "1-2 existing agent folders (with a downloaded file and a console log; optionally Download_x/, Downloads/ siblings), 1-8 AgentOutput messages of a third-party agent service, each a download (AgentID, FileName from the path grammar, content) or a console output, delivered over a websocket to the real service endpoint or by making service.go's two logr calls directly; agent ids: existing, fresh, '', '.', '..', '../x', '<existing>/b', '<existing>/Download', 'x/../<existing>', '/<id>', '<id>/', with NUL, 300 chars, random joins. Oracle after every message: recursive listing of a root four levels above the loot root; an id that is not a single path component creates nothing; otherwise the only file written is the cleaned target strictly inside agents/<id>/Download with exactly the bytes sent (plus agents/<id>/Console_<id>.log, append-only, containing the message), the only directories created are agents/<id> and its Download folder; plain names must be stored. Non-trivial: a crafted id, or a name with .., separator mix or prefix-sharing sibling; distinct = (class of first crafted id, flags of first interesting name, #modes, #folders)",
-		Gen:   genB, Check: checkB, Classify: classifyB,
+		Gen:  genB, Check: checkB, Classify: classifyB,
 		Assumptions: []string{
 			"ids on which DemonAddOutput could end in log.Fatal (NUL, >200 chars, or containing '/' while the directory of agents/Clean(id)/Console_<id>.log does not exist) are not passed to DemonAddOutput: process exit is outside this property and would hide everything else",
 			"an id contains at most 2 and a file name at most 4 '..' components so that nothing can leave the observed tree",
